@@ -11,7 +11,8 @@ until git -C /repo worktree add --detach -q "$WT" HEAD 2>/dev/null; do
   N=$((N + 1)); [ $N -ge 10 ] && { echo "cannot create scratch worktree"; exit 2; }
   sleep 1
 done
-if ! git -C "$WT" apply "$PATCH"; then
+# (a patch made against an older HEAD: fall back to a three-way merge with the blobs it names)
+if ! git -C "$WT" apply "$PATCH" 2>/dev/null && ! git -C "$WT" apply --3way "$PATCH" 2>/dev/null; then
   echo "patch does not apply"; git -C /repo worktree remove --force "$WT"; exit 2
 fi
 VERIF_REPO="$WT" "$@"
